@@ -2,6 +2,7 @@ import Lean.Data.Json
 import OapiVerif.Model.Prune
 import OapiVerif.Model.Filter
 import OapiVerif.Model.Codec
+import OapiVerif.Model.Paths
 /-!
 Line-protocol driver: one JSON object per line in, one per line out.
 `{"fn": <name>, ...}` ↦ `{"ok": <result>}` or `{"err": "bad-op"}` (never a default).
@@ -144,6 +145,34 @@ def unescapeD (j : Json) : Except String Json := do
   let m := if (← j.getObjValAs? String "mode") == "path" then Mode.path else Mode.query
   pure (match unescape m (← getHex j "s") with | some r => Json.str (hexStr r) | none => Json.null)
 
+open Paths in
+def scanD (j : Json) : Except String Json := do
+  let uri ← getHex j "uri"
+  pure (Json.mkObj [("params", jstrs ((orderedParams uri).map hexStr)), ("chi", hexStr (toChi uri)),
+    ("colon", hexStr (toColon uri)), ("fmt", hexStr (toFmt' uri))])
+
+open Paths in
+def sortParamsD (j : Json) : Except String Json := do
+  let path ← getHex j "path"
+  let names ← getHexList j "names"
+  let ps : List Param := names.zipIdx.map fun (n, i) => ⟨n, i⟩
+  pure (match sortParamsByPath path ps with
+    | .ok out => Json.mkObj [("ok", Json.arr (out.map fun p => Json.num p.tag).toArray)]
+    | .error e => Json.mkObj [("error", e)])
+
+open Paths in
+def routeD (j : Json) : Except String Json := do
+  let os ← j.getObjValAs? (Array Json) "ops"
+  let ops ← os.toList.mapM fun o => do
+    let segs ← (← o.getObjValAs? (Array Json) "segs").toList.mapM fun sj => do
+      let s ← getHex sj "s"
+      pure (if (← sj.getObjValAs? Bool "var") then Seg.var s else Seg.static s)
+    pure (⟨← o.getObjValAs? Nat "method", segs, ← o.getObjValAs? Nat "id"⟩ : Op)
+  let path ← getHexList j "path"
+  pure (match route ops (← j.getObjValAs? Nat "method") path with
+    | none => Json.null
+    | some (o, b) => Json.mkObj [("id", o.id), ("names", jstrs (b.map (hexStr ·.1))), ("values", jstrs (b.map (hexStr ·.2)))])
+
 def dispatch (fn : String) (j : Json) : Except String Json :=
   match fn with
   | "prune" => prune j
@@ -154,6 +183,9 @@ def dispatch (fn : String) (j : Json) : Except String Json :=
   | "parseQuery" => parseQueryD j
   | "bindStyled" => bindStyledD j
   | "bindQuery" => bindQueryD j
+  | "scan" => scanD j
+  | "sortParams" => sortParamsD j
+  | "route" => routeD j
   | "escape" => escapeD j
   | "unescape" => unescapeD j
   | _ => .error "bad-op"
